@@ -1,6 +1,10 @@
-(* Properties/C03.v — pinned statements only. *)
-From Boreal Require Import Base.Prelude Spec.Regex Model.Widen Model.Validator Model.Raw Model.HirScan
-  Proofs.HexScanProofs.
+(* Properties/C03.v — pinned statements only.  Regex strings and `matches`: same language as the regex.
+   The theorems about the Aho-Corasick path are those of C02 (they hold for any HIR, any `nocase` /
+   `dot_all`, the plain reading: ascii, no fullword); here they are stated for the three matcher
+   kinds a regex can get, plus the raw path. *)
+From Boreal Require Import Base.Prelude Spec.Regex Model.Hir Model.Widen Model.Validator Model.Raw Model.HirScan
+  Model.Decomp Model.HexCase
+  Proofs.HexScanProofs Proofs.ValidatorProofs Proofs.DecompProofs Proofs.HexProofs Proofs.RawProofs Proofs.HexWitnesses.
 From Coq Require Import Sorted.
 
 (* Ordered, one match per offset, for every regex string that goes through the Aho-Corasick pass. *)
@@ -9,4 +13,81 @@ Theorem C03_ac_scan_ascending :
     StronglySorted (fun a b => fst a < fst b) (ac_scan use_sp d mem max_nb).
 Proof. exact ac_scan_ascending. Qed.
 
+(* greedy_sound: when the reverse part has a greedy repetition the end of every match is computed by
+   the whole regex from the candidate start: every reported match is a member, with NO assumption on
+   the decomposition. *)
+Theorem C03_greedy_sound :
+  forall use_sp d mem max_nb,
+    plain (s_mods d) -> atoms_ok d -> s_kind d = KGreedy -> (exists q, s_pre d = Some q) ->
+    Forall (fun y => In (snd y) (Lens (flags_of (s_mods d)) mem (s_hir d) (fst y))) (ac_scan use_sp d mem max_nb).
+Proof.
+  exact (fun use_sp d mem max_nb Hp Ha Hk Hq =>
+           atomized_sound use_sp d mem max_nb Hp Ha (or_intror (or_intror (conj Hk Hq))) (or_introl Hk)).
+Qed.
+
+(* sound for any decomposition with the glue property, all three kinds *)
+Theorem C03_atomized_sound :
+  forall use_sp d mem max_nb,
+    plain (s_mods d) -> atoms_ok d -> kind_ok d ->
+    (s_kind d = KGreedy \/ DecompGlue (s_mods d) mem (s_hir d) (s_lits d) (s_pre d) (s_post d)) ->
+    Forall (fun y => In (snd y) (Lens (flags_of (s_mods d)) mem (s_hir d) (fst y))) (ac_scan use_sp d mem max_nb).
+Proof. exact atomized_sound. Qed.
+
+(* complete (greedy_complete included), modulo start_position *)
+Theorem C03_atomized_complete :
+  forall d mem max_nb a b,
+    plain (s_mods d) -> atoms_ok d -> kind_ok d ->
+    DecompSplit (s_mods d) mem (s_hir d) (s_lits d) (s_pre d) (s_post d) ->
+    nlen mem <= umax -> nlen mem < max_nb ->
+    kf_start_position d mem max_nb = false ->
+    In b (ends (flags_of (s_mods d)) mem (s_hir d) a) ->
+    In a (map fst (model_scan d mem max_nb)).
+Proof. exact atomized_complete. Qed.
+
+(* Raw path: starts are exactly the offsets with a member, ascending, each with its leftmost-first length *)
+Theorem C03_raw_scan_exact :
+  forall md h mem max_nb,
+    plain md -> ends (flags_of md) mem h (nlen mem) = [] -> nlen mem < max_nb ->
+    raw_scan md h mem max_nb
+    = map (fun s => (s, first_end (flags_of md) mem h s - s))
+          (filter (fun s => nonempty (ends (flags_of md) mem h s)) (iota 0 (nlen mem))).
+Proof. exact raw_scan_exact. Qed.
+
+(* known findings are real *)
+Theorem C03_start_position_refuted :
+  In 0 (starts_spec (flags_of md_re) m_95 h_95r)
+  /\ ~ In 0 (map fst (model_scan d_95r m_95 1000))
+  /\ kf_start_position d_95r m_95 1000 = true.
+Proof. exact start_position_regex_refuted. Qed.
+
+Theorem C03_fullword_single_length_refuted :
+  members_at md_fw h_fw m_fw 1 = ([2], [])
+  /\ model_scan d_fw m_fw 1000 = []
+  /\ kf_fullword_other_length md_fw h_fw m_fw = true.
+Proof. exact fullword_single_length_refuted. Qed.
+
+Theorem C03_nocase_negated_class_pinned_refuted :
+  ends (flags_of md_nc) [97;98;99] h_nc 0 = []
+  /\ model_scan (d_nc None) [97;98;99] 1000 = [(0, 1); (1, 1); (2, 1)]
+  /\ model_scan (d_nc (Some h_nc)) [97;98;99] 1000 = [(2, 1)].
+Proof. exact nocase_negated_class_pinned_refuted. Qed.
+
+(* non-vacuity *)
+Example C03_raw_example :
+  plain md_re /\ ends (flags_of md_re) [120;97;98;98;99;97;98;99] h_raw 8 = []
+  /\ raw_scan md_re h_raw [120;97;98;98;99;97;98;99] 1000 = [(1, 4); (5, 3)].
+Proof. exact raw_example_hyps. Qed.
+
+Example C03_greedy_example :
+  plain md_re /\ atoms_ok d_gr /\ kind_ok d_gr
+  /\ model_scan d_gr [120;49;97;98;50;97;98;120;97;98] 1000 = [(0, 10)].
+Proof. exact greedy_example_hyps. Qed.
+
 Print Assumptions C03_ac_scan_ascending.
+Print Assumptions C03_greedy_sound.
+Print Assumptions C03_atomized_sound.
+Print Assumptions C03_atomized_complete.
+Print Assumptions C03_raw_scan_exact.
+Print Assumptions C03_start_position_refuted.
+Print Assumptions C03_fullword_single_length_refuted.
+Print Assumptions C03_nocase_negated_class_pinned_refuted.
